@@ -67,6 +67,7 @@ Section Quality.
 Context {Q : Type}.
 Variable parse_q : bool -> bytes -> qres Q.
 Variable qeqb qltb qleb : Q -> Q -> bool.
+Variable vq vx : variant.
 (* float comparison on the values float() can return for an accepted field: a total preorder *)
 Hypothesis qle_total : forall a b, qleb a b = true \/ qleb b a = true.
 Hypothesis qle_trans : forall a b c, qleb a b = true -> qleb b c = true -> qleb a c = true.
@@ -75,8 +76,8 @@ Hypothesis qltb_spec : forall a b, qltb a b = negb (qleb b a).
 
 Notation elem := (@elem Q).
 Notation lt_elem := (@lt_elem Q qeqb qltb).
-Notation accept_parse := (@accept_parse Q parse_q).
-Notation elements := (@elements Q parse_q qeqb qltb).
+Notation accept_parse := (@accept_parse Q parse_q vq vx).
+Notation elements := (@elements Q parse_q qeqb qltb vq vx).
 
 Lemma qle_refl a : qleb a a = true.
 Proof. destruct (qle_total a a); assumption. Qed.
@@ -257,34 +258,64 @@ Qed.
 (* the text an element hands to float(): its q parameter, or "1" *)
 Definition q_text (e : elem) : bytes := match get_param QKEY (e_params e) with Some t => t | None => ONE end.
 
-Lemma accept_parse_quality star s e :
+(* the branches of accept_parse that return an element *)
+Lemma accept_parse_ok_inv star s e :
   accept_parse star s = EOk e ->
-  (isnil (q_text e) = true /\ e_quality e = None) \/
-  (isnil (q_text e) = false /\ exists q, parse_q (e_qbytes e) (q_text e) = QVal q /\ e_quality e = Some q).
+  exists mt ps qb ps0 ext,
+    parseparams (strip (fst (qsep_split s))) = POk mt ps /\
+    match parse_qpart vx (snd (qsep_split s)) with
+    | QText t x => qb = true /\ ps0 = set_param QKEY t ps /\ ext = x
+    | QNoSep => qb = false /\ ps0 = ps /\ ext = []
+    | _ => False
+    end /\
+    existsb (has_key ps0) ext = false /\
+    e_params e = ps0 ++ ext /\ e_qbytes e = qb /\
+    e_value e = (if star && bytes_eqb mt [STAR] then [STAR; SLASH; STAR] else mt) /\
+    e_text e = compose (e_value e) qb (e_params e) /\
+    let qt := match get_param QKEY (ps0 ++ ext) with Some t => t | None => ONE end in
+    ((vq = AsFound /\ isnil qt = true /\ e_quality e = None) \/
+     ((vq = Repaired \/ isnil qt = false) /\ exists q, parse_q qb qt = QVal q /\ e_quality e = Some q)).
 Proof.
   unfold Accept.accept_parse. destruct (rfc2047_guard s); [discriminate|].
-  destruct (qsep_split s) as [before after].
-  destruct (parse_qpart after) as [|t| |] eqn:QP; try discriminate;
-  destruct (parseparams (strip before)) as [mt ps| |]; try discriminate; cbv zeta.
-  - set (qt := match get_param QKEY ps with Some t => t | None => ONE end).
-    destruct (isnil qt) eqn:N.
-    + intros H. injection H as <-. left. unfold q_text. cbn [e_params e_quality]. fold qt. split; [exact N | reflexivity].
-    + destruct (parse_q false qt) as [q| |] eqn:PQ; try discriminate.
-      intros H. injection H as <-. right. unfold q_text. cbn [e_params e_quality e_qbytes]. fold qt.
-      split; [exact N|]. exists q. split; [exact PQ | reflexivity].
-  - set (qt := match get_param QKEY (set_param QKEY t ps) with Some t => t | None => ONE end).
-    destruct (isnil qt) eqn:N.
-    + intros H. injection H as <-. left. unfold q_text. cbn [e_params e_quality]. fold qt. split; [exact N | reflexivity].
-    + destruct (parse_q true qt) as [q| |] eqn:PQ; try discriminate.
-      intros H. injection H as <-. right. unfold q_text. cbn [e_params e_quality e_qbytes]. fold qt.
-      split; [exact N|]. exists q. split; [exact PQ | reflexivity].
+  destruct (qsep_split s) as [before after]. cbn [fst snd].
+  destruct (parse_qpart vx after) as [|t x| |] eqn:QP; try discriminate;
+  destruct (parseparams (strip before)) as [mt ps| |]; try discriminate; cbv zeta beta iota.
+  - cbn [existsb]. set (qt := match get_param QKEY (ps ++ []) with Some t => t | None => ONE end).
+    intros H. exists mt, ps, false, ps, []. split; [reflexivity|]. split; [repeat split|]. split; [reflexivity|].
+    fold qt. destruct vq.
+    + destruct (isnil qt) eqn:N.
+      * injection H as <-. cbn [e_params e_qbytes e_value e_text e_quality]. repeat split. left. repeat split.
+      * destruct (parse_q false qt) as [q| |] eqn:PQ; try discriminate. injection H as <-.
+        cbn [e_params e_qbytes e_value e_text e_quality]. repeat split. right. split; [right; reflexivity|]. exists q. split; reflexivity.
+    + destruct (parse_q false qt) as [q| |] eqn:PQ; try discriminate. injection H as <-.
+      cbn [e_params e_qbytes e_value e_text e_quality]. repeat split. right. split; [left; reflexivity|]. exists q. split; reflexivity.
+  - destruct (existsb (has_key (set_param QKEY t ps)) x) eqn:D; [discriminate|].
+    set (qt := match get_param QKEY (set_param QKEY t ps ++ x) with Some t => t | None => ONE end).
+    intros H. exists mt, ps, true, (set_param QKEY t ps), x. split; [reflexivity|]. split; [repeat split|]. split; [exact D|].
+    fold qt. destruct vq.
+    + destruct (isnil qt) eqn:N.
+      * injection H as <-. cbn [e_params e_qbytes e_value e_text e_quality]. repeat split. left. repeat split.
+      * destruct (parse_q true qt) as [q| |] eqn:PQ; try discriminate. injection H as <-.
+        cbn [e_params e_qbytes e_value e_text e_quality]. repeat split. right. split; [right; reflexivity|]. exists q. split; reflexivity.
+    + destruct (parse_q true qt) as [q| |] eqn:PQ; try discriminate. injection H as <-.
+      cbn [e_params e_qbytes e_value e_text e_quality]. repeat split. right. split; [left; reflexivity|]. exists q. split; reflexivity.
+Qed.
+
+(* an element that is returned has no quality (only as found, only for an empty q text) or the value float() gives to its q text *)
+Lemma accept_parse_quality star s e :
+  accept_parse star s = EOk e ->
+  (vq = AsFound /\ isnil (q_text e) = true /\ e_quality e = None) \/
+  ((vq = Repaired \/ isnil (q_text e) = false) /\ exists q, parse_q (e_qbytes e) (q_text e) = QVal q /\ e_quality e = Some q).
+Proof.
+  intros H. destruct (accept_parse_ok_inv _ _ _ H) as (mt & ps & qb & ps0 & ext & _ & _ & _ & Ep & Eb & _ & _ & Hq).
+  unfold q_text. rewrite Ep, Eb. exact Hq.
 Qed.
 
 (* every returned element carries a q text that is empty or that float() turned into a value *)
 Theorem elements_quality_is_number star f es e :
   elements star f = FOk es -> In e es ->
-  (isnil (q_text e) = true /\ e_quality e = None) \/
-  (isnil (q_text e) = false /\ exists q, parse_q (e_qbytes e) (q_text e) = QVal q /\ e_quality e = Some q).
+  (vq = AsFound /\ isnil (q_text e) = true /\ e_quality e = None) \/
+  ((vq = Repaired \/ isnil (q_text e) = false) /\ exists q, parse_q (e_qbytes e) (q_text e) = QVal q /\ e_quality e = Some q).
 Proof.
   intros H He. destruct (elements_permutation _ _ _ H) as (ps & F & Pm).
   apply (Permutation_in _ (Permutation_sym Pm)) in He.
@@ -292,25 +323,43 @@ Proof.
   destruct He as [<-|He]; [eapply accept_parse_quality; exact Hp | apply IH, He].
 Qed.
 
+Lemma get_param_app_some k a b v : get_param k a = Some v -> get_param k (a ++ b) = Some v.
+Proof.
+  induction a as [|[k' v'] a IH]; cbn [get_param app]; [discriminate|].
+  destruct (bytes_eqb k' k); [trivial | exact IH].
+Qed.
+
+Lemma get_set_param k v ps : get_param k (set_param k v ps) = Some v.
+Proof.
+  induction ps as [|[k' v'] ps IH]; cbn [set_param get_param].
+  - rewrite bytes_eqb_refl. reflexivity.
+  - destruct (bytes_eqb k' k) eqn:E; cbn [get_param]; [rewrite bytes_eqb_refl; reflexivity | rewrite E; exact IH].
+Qed.
+
 (* the q text of a listed element, as _AcceptElement.parse extracts it (None: the element is refused or outside the model before float() is reached) *)
 Definition q_source (s : bytes) : option (bool * bytes) :=
   if rfc2047_guard s then None
   else
     let '(before, after) := qsep_split s in
-    match parse_qpart after, parseparams (strip before) with
-    | QText t, POk _ ps => Some (true, match get_param QKEY (set_param QKEY t ps) with Some x => x | None => ONE end)
+    match parse_qpart vx after, parseparams (strip before) with
+    | QText t ext, POk _ ps => if existsb (has_key (set_param QKEY t ps)) ext then None else Some (true, t)
     | QNoSep, POk _ ps => Some (false, match get_param QKEY ps with Some x => x | None => ONE end)
     | _, _ => None
     end.
 
 Lemma accept_parse_bad_q star s b t :
-  q_source s = Some (b, t) -> isnil t = false -> parse_q b t = QBad -> accept_parse star s = EInvalid.
+  q_source s = Some (b, t) -> vq = Repaired \/ isnil t = false -> parse_q b t = QBad -> accept_parse star s = EInvalid.
 Proof.
   unfold q_source, Accept.accept_parse. destruct (rfc2047_guard s); [discriminate|].
   destruct (qsep_split s) as [before after].
-  destruct (parse_qpart after) as [|t'| |]; try discriminate;
-  destruct (parseparams (strip before)) as [mt ps| |]; try discriminate; cbv zeta;
-  intros H; injection H as <- <-; intros N PQ; rewrite N, PQ; reflexivity.
+  destruct (parse_qpart vx after) as [|t' x| |]; try discriminate;
+  destruct (parseparams (strip before)) as [mt ps| |]; try discriminate; cbv zeta beta iota.
+  - cbn [existsb]. rewrite app_nil_r. intros H; injection H as <- <-. intros N PQ. rewrite PQ.
+    destruct vq; [|reflexivity]. destruct N as [N|N]; [discriminate | rewrite N; reflexivity].
+  - destruct (existsb (has_key (set_param QKEY t' ps)) x); [discriminate|].
+    rewrite (get_param_app_some _ _ x _ (get_set_param QKEY t' ps)).
+    intros H; injection H as <- <-. intros N PQ. rewrite PQ.
+    destruct vq; [|reflexivity]. destruct N as [N|N]; [discriminate | rewrite N; reflexivity].
 Qed.
 
 Lemma collect_invalid (l : list (@eres Q)) : In EInvalid l -> collect l = None \/ collect l = Some None.
@@ -322,7 +371,7 @@ Qed.
 
 Theorem malformed_q_invalid star f p b t :
   isnil f = false -> In p (qsplit COMMA f) ->
-  q_source (strip p) = Some (b, t) -> isnil t = false -> parse_q b t = QBad ->
+  q_source (strip p) = Some (b, t) -> vq = Repaired \/ isnil t = false -> parse_q b t = QBad ->
   elements star f = FInvalid \/ elements star f = FUnmodelled.
 Proof.
   intros Nf Hp Hs Nt PQ. unfold Accept.elements. rewrite Nf.
@@ -332,26 +381,18 @@ Proof.
 Qed.
 
 (* "absent meaning 1": an element without q parameter has the quality float("1") *)
-Lemma get_set_param k v ps : get_param k (set_param k v ps) = Some v.
-Proof.
-  induction ps as [|[k' v'] ps IH]; cbn [set_param get_param].
-  - rewrite bytes_eqb_refl. reflexivity.
-  - destruct (bytes_eqb k' k) eqn:E; cbn [get_param]; [rewrite bytes_eqb_refl; reflexivity | rewrite E; exact IH].
-Qed.
 
 Lemma accept_parse_absent star s e q1 :
   accept_parse star s = EOk e -> get_param QKEY (e_params e) = None ->
   parse_q false ONE = QVal q1 -> e_quality e = Some q1.
 Proof.
-  unfold Accept.accept_parse. destruct (rfc2047_guard s); [discriminate|].
-  destruct (qsep_split s) as [before after].
-  destruct (parse_qpart after) as [|t| |] eqn:QP; try discriminate;
-  destruct (parseparams (strip before)) as [mt ps| |]; try discriminate; cbv zeta.
-  - destruct (get_param QKEY ps) as [t|] eqn:G.
-    + destruct (isnil t); [|destruct (parse_q false t)]; try discriminate; intros H; injection H as <-; cbn [e_params]; congruence.
-    + cbn [isnil ONE]. intros H _ P1. rewrite P1 in H. injection H as <-. reflexivity.
-  - rewrite get_set_param. destruct (isnil t); [|destruct (parse_q true t)]; try discriminate;
-      intros H; injection H as <-; cbn [e_params]; rewrite get_set_param; discriminate.
+  intros H G P1.
+  destruct (accept_parse_ok_inv _ _ _ H) as (mt & ps & qb & ps0 & ext & _ & QP & _ & Ep & Eb & _ & _ & Hq).
+  rewrite Ep in G. cbv zeta in Hq. rewrite G in Hq.
+  destruct (parse_qpart vx (snd (qsep_split s))) as [|t x| |]; try contradiction.
+  - destruct QP as (-> & _). cbn [isnil ONE] in Hq.
+    destruct Hq as [(_ & N & _)|(_ & q & PQ & ->)]; [discriminate | congruence].
+  - destruct QP as (_ & -> & _). rewrite (get_param_app_some _ _ ext _ (get_set_param QKEY t ps)) in G. discriminate.
 Qed.
 
 Theorem elements_absent_is_one star f es e q1 :
@@ -376,6 +417,68 @@ Proof.
 Qed.
 
 End Quality.
+
+(* ---------- after the repair of D25 (empty q): every returned quality is a number, sorting is total ---------- *)
+
+Section RepairedEmptyQ.
+Context {Q : Type}.
+Variable parse_q : bool -> bytes -> qres Q.
+Variable qeqb qltb : Q -> Q -> bool.
+Variable vx : variant.
+Notation accept_parse := (@accept_parse Q parse_q Repaired vx).
+Notation elements := (@elements Q parse_q qeqb qltb Repaired vx).
+
+Lemma accept_parse_numeric star s e :
+  accept_parse star s = EOk e -> exists q, parse_q (e_qbytes e) (q_text e) = QVal q /\ e_quality e = Some q.
+Proof.
+  intros H. destruct (accept_parse_quality parse_q Repaired vx _ _ _ H) as [(A & _)|(_ & R)]; [discriminate | exact R].
+Qed.
+
+Lemma collect_numeric star (l : list bytes) es :
+  collect (map (fun p => accept_parse star (strip p)) l) = Some (Some es) -> Forall (uniform true) es.
+Proof.
+  intros C. apply collect_spec in C. remember (map (fun p => accept_parse star (strip p)) l) as rs eqn:E.
+  revert l E. induction C as [|r e rs es Hr C IH]; intros l E; [constructor|].
+  destruct l as [|p l]; [discriminate|]. cbn [map] in E. injection E as E1 E2. constructor.
+  - subst r. symmetry in E1. destruct (accept_parse_numeric _ _ _ E1) as (q & _ & Hq). unfold uniform. rewrite Hq. reflexivity.
+  - apply (IH l E2).
+Qed.
+
+(* the TypeError (None < float) can no longer arise *)
+Theorem elements_no_typeerror_repaired star f : elements star f <> FTypeError.
+Proof.
+  unfold Accept.elements. destruct (isnil f); [discriminate|].
+  destruct (collect _) as [[es|]|] eqn:C; try discriminate.
+  destruct (existsb (fun e => rfc2047_guard (e_text e)) es); [discriminate|].
+  apply collect_numeric in C.
+  assert (existsb (fun e : elem => negb (is_some (e_quality e))) es = false) as ->.
+  { apply existsb_false_forall. apply forallb_forall. intros e He. rewrite Forall_forall in C.
+    specialize (C e He). unfold uniform in C. rewrite C. reflexivity. }
+  rewrite andb_false_r. discriminate.
+Qed.
+
+(* every returned element has the quality float() gives to its q text (or to "1") *)
+Theorem elements_numeric_repaired star f es e :
+  elements star f = FOk es -> In e es ->
+  exists q, parse_q (e_qbytes e) (q_text e) = QVal q /\ e_quality e = Some q.
+Proof.
+  intros H He. destruct (elements_quality_is_number parse_q qeqb qltb Repaired vx _ _ _ _ H He) as [(A & _)|(_ & R)]; [discriminate | exact R].
+Qed.
+
+Theorem elements_uniform_repaired star f es : elements star f = FOk es -> Forall (uniform true) es.
+Proof.
+  intros H. apply Forall_forall. intros e He. destruct (elements_numeric_repaired _ _ _ _ H He) as (q & _ & Hq).
+  unfold uniform. rewrite Hq. reflexivity.
+Qed.
+
+(* a listed element whose q text float() refuses - the empty text included - makes the field invalid *)
+Theorem malformed_q_invalid_repaired star f p b t :
+  isnil f = false -> In p (qsplit COMMA f) ->
+  q_source vx (strip p) = Some (b, t) -> parse_q b t = QBad ->
+  elements star f = FInvalid \/ elements star f = FUnmodelled.
+Proof. intros Nf Hp Hs PQ. eapply malformed_q_invalid; try eassumption. left. reflexivity. Qed.
+
+End RepairedEmptyQ.
 
 (* ---------- the concrete instance: decimals as scaled integers ---------- *)
 
@@ -405,17 +508,34 @@ Proof.
   - reflexivity.
 Qed.
 
+(* float() refuses the empty text *)
+Lemma concrete_empty_bad b : concrete_q b [] = QBad.
+Proof. destruct b; vm_compute; reflexivity. Qed.
+
 Definition celements := @elements Z concrete_q Z.eqb Z.ltb.
 
-(* witnesses of the two known findings on the faithful model *)
-Lemma empty_q_typeerror : celements true (X "612f623b713d2c20632f64") = FTypeError.
-Proof. vm_compute. reflexivity. Qed.
-Lemma empty_q_none : exists es e, celements true (X "612f623b713d") = FOk es /\ In e es /\ e_quality e = None.
-Proof. eexists. eexists. split; [vm_compute; reflexivity|]. split; [left; reflexivity | reflexivity]. Qed.
-Lemma accept_ext_rejected :
-  celements true (X "746578742f68746d6c3b713d302e353b6578743d31") = FInvalid /\
+(* witnesses of the two findings D25 on the faithful model of the code as found (both repaired since) *)
+Lemma empty_q_typeerror vx : celements AsFound vx true (X "612f623b713d2c20632f64") = FTypeError.
+Proof. destruct vx; vm_compute; reflexivity. Qed.
+Lemma empty_q_none vx : exists es e, celements AsFound vx true (X "612f623b713d") = FOk es /\ In e es /\ e_quality e = None.
+Proof. destruct vx; (eexists; eexists; split; [vm_compute; reflexivity|]; split; [left; reflexivity | reflexivity]). Qed.
+Lemma accept_ext_rejected vq :
+  celements vq AsFound true (X "746578742f68746d6c3b713d302e353b6578743d31") = FInvalid /\
   concrete_q true (X "302e35") = QVal (5 * 10 ^ 39)%Z.
-Proof. vm_compute. split; reflexivity. Qed.
+Proof. destruct vq; vm_compute; split; reflexivity. Qed.
+
+(* the same inputs on the model of the repaired code *)
+Lemma empty_q_invalid_repaired vx :
+  celements Repaired vx true (X "612f623b713d2c20632f64") = FInvalid /\ celements Repaired vx true (X "612f623b713d") = FInvalid.
+Proof. destruct vx; vm_compute; split; reflexivity. Qed.
+(* text/html;q=0.5;ext=1  ->  one element, quality 0.5, parameters q=0.5 and ext=1, composed as "text/html; q=0.5; ext=1" *)
+Lemma accept_ext_returned_repaired vq :
+  match celements vq Repaired true (X "746578742f68746d6c3b713d302e353b6578743d31") with
+  | FOk [e] => e_value e = X "746578742f68746d6c" /\ e_params e = [(X "71", X "302e35"); (X "657874", X "31")] /\
+               e_quality e = Some (5 * 10 ^ 39)%Z /\ e_text e = X "746578742f68746d6c3b20713d302e353b206578743d31"
+  | _ => False
+  end.
+Proof. destruct vq; vm_compute; repeat split; reflexivity. Qed.
 
 (* ---------- statements with the order hypotheses bundled ---------- *)
 
@@ -433,6 +553,7 @@ Section Bundled.
 Context {Q : Type}.
 Variable parse_q : bool -> bytes -> qres Q.
 Variable qeqb qltb qleb : Q -> Q -> bool.
+Variable vq vx : variant.
 Hypothesis FO : float_order qeqb qltb qleb.
 
 Theorem b_strict_weak_order k :
@@ -444,37 +565,37 @@ Theorem b_strict_weak_order k :
 Proof. destruct FO as (H1 & H2 & H3 & H4). exact (lt_elem_strict_weak_order qeqb qltb qleb H1 H2 H3 H4 k). Qed.
 
 Theorem b_sorted star f es :
-  elements parse_q qeqb qltb star f = FOk es ->
+  elements parse_q qeqb qltb vq vx star f = FOk es ->
   StronglySorted (fun a b => oq_ltb qltb (e_quality a) (e_quality b) = false) es.
-Proof. destruct FO as (H1 & H2 & H3 & H4). exact (elements_sorted parse_q qeqb qltb qleb H1 H2 H3 H4 star f es). Qed.
+Proof. destruct FO as (H1 & H2 & H3 & H4). exact (elements_sorted parse_q qeqb qltb qleb vq vx H1 H2 H3 H4 star f es). Qed.
 
 Theorem b_sorted_elem star f es :
-  elements parse_q qeqb qltb star f = FOk es ->
+  elements parse_q qeqb qltb vq vx star f = FOk es ->
   StronglySorted (fun a b => lt_elem qeqb qltb a b = false) es.
-Proof. destruct FO as (H1 & H2 & H3 & H4). exact (elements_sorted_elem parse_q qeqb qltb qleb H1 H2 H3 H4 star f es). Qed.
+Proof. destruct FO as (H1 & H2 & H3 & H4). exact (elements_sorted_elem parse_q qeqb qltb qleb vq vx H1 H2 H3 H4 star f es). Qed.
 
 Theorem b_order_invariant star f f' es ps ps' :
-  Forall2 (fun p e => accept_parse parse_q star (strip p) = EOk e) (pieces f) ps ->
-  Forall2 (fun p e => accept_parse parse_q star (strip p) = EOk e) (pieces f') ps' ->
+  Forall2 (fun p e => accept_parse parse_q vq vx star (strip p) = EOk e) (pieces f) ps ->
+  Forall2 (fun p e => accept_parse parse_q vq vx star (strip p) = EOk e) (pieces f') ps' ->
   Permutation ps ps' ->
-  elements parse_q qeqb qltb star f = FOk es ->
-  exists es', elements parse_q qeqb qltb star f' = FOk es' /\ Permutation es es' /\
+  elements parse_q qeqb qltb vq vx star f = FOk es ->
+  exists es', elements parse_q qeqb qltb vq vx star f' = FOk es' /\ Permutation es es' /\
     Forall2 (fun a b => oq_eqb qeqb (e_quality a) (e_quality b) = true) es es'.
-Proof. destruct FO as (H1 & H2 & H3 & H4). exact (elements_order_invariant parse_q qeqb qltb qleb H1 H2 H3 H4 star f f' es ps ps'). Qed.
+Proof. destruct FO as (H1 & H2 & H3 & H4). exact (elements_order_invariant parse_q qeqb qltb qleb vq vx H1 H2 H3 H4 star f f' es ps ps'). Qed.
 
 End Bundled.
 
 (* a fully computed example: Accept: a/b;q=0.5, c/d  ->  c/d (absent = 1) before a/b *)
-Lemma example_sorted :
-  match celements true (X "612f623b713d302e352c20632f64") with
+Lemma example_sorted vq vx :
+  match celements vq vx true (X "612f623b713d302e352c20632f64") with
   | FOk [e1; e2] => e_value e1 = X "632f64" /\ e_value e2 = X "612f62" /\
                     e_quality e1 = Some (10 ^ 40)%Z /\ e_quality e2 = Some (5 * 10 ^ 39)%Z
   | _ => False
   end.
-Proof. vm_compute. repeat split; reflexivity. Qed.
+Proof. destruct vq, vx; vm_compute; repeat split; reflexivity. Qed.
 
-Lemma example_malformed :
-  q_source (X "612f623b713d6f6e65") = Some (true, X "6f6e65") /\ concrete_q true (X "6f6e65") = QBad /\
-  q_source (X "612f623b713d6e616e") = Some (true, X "6e616e") /\ concrete_q true (X "6e616e") = QBad /\
-  celements true (X "632f642c20612f623b713d6f6e65") = FInvalid.
-Proof. vm_compute. repeat split; reflexivity. Qed.
+Lemma example_malformed vq vx :
+  q_source vx (X "612f623b713d6f6e65") = Some (true, X "6f6e65") /\ concrete_q true (X "6f6e65") = QBad /\
+  q_source vx (X "612f623b713d6e616e") = Some (true, X "6e616e") /\ concrete_q true (X "6e616e") = QBad /\
+  celements vq vx true (X "632f642c20612f623b713d6f6e65") = FInvalid.
+Proof. destruct vq, vx; vm_compute; repeat split; reflexivity. Qed.
